@@ -4,6 +4,8 @@ import Tw.Proofs.Packet6Write
 import Tw.Model.Packet7
 import Tw.Proofs.Packet7Headers
 import Tw.Proofs.Packet7Write
+import Tw.Proofs.Packet6Chunks
+import Tw.Proofs.Packet7Chunks
 
 /-!
 # C05 — packet encoding and decoding are mutually inverse
@@ -97,6 +99,14 @@ theorem v6_max_payload_is_valid (ack : Nat) (tok : Option Token) (rr : Bool) (nc
   have h3 : Tw.Gen.Packet6.TOKEN_SIZE = 4 := by decide
   have h4 : Tw.Gen.Packet6.READ_PAYLOAD_LIMIT = 1397 := by decide
   split <;> omega
+
+/-- 0.6 vital chunk header, **every** three-byte pattern: re-packing or-s the two doubly stored sequence
+bits together (`[v.0, v.1 | ((v.2 & 0b1100_0000) >> 2), v.2 | ((v.1 & 0b0011_0000) << 2)]`, the
+normalisation documented in doc/packet.md and used by the crate's own quickcheck). -/
+theorem v6_chunkHeaderVital_pack_unpack_all (b0 b1 b2 : Nat) (h0 : b0 < 256) (h1 : b1 < 256) (h2 : b2 < 256) :
+    chunkHeaderVitalPack (chunkHeaderVitalUnpackWarn b0 b1 b2).1 =
+      some (b0, b1 ||| ((b2 &&& 192) >>> 2), b2 ||| ((b1 &&& 48) <<< 2)) :=
+  chv_pack_unpack_all b0 b1 b2 h0 h1 h2
 
 -- non-vacuity
 example : Tw.Packet6.Valid (.connected 1023 (some ⟨1, 2, 3, 4⟩) (.control (.close [0x62, 0x79, 0x65]))) := by
@@ -196,5 +206,60 @@ example : Tw.Packet7.chunkHeaderVitalPack { h := { flags := 1, size := 48 }, seq
   decide
 
 end V7
+
+/-- Tie: the literals and constants the writer models depend on (the two 2048-byte `ArrayVec`s of the 0.6
+`write_impl`, the one of 0.7, the `0xff` connless padding, flag/control/token constants). -/
+theorem tie_writer_literals :
+    Tw.Gen.Packet6.lits_write_impl = [2048, 2048, 0, 0, 0] ∧ Tw.Gen.Packet7.lits_write_impl = [2048, 0, 0, 0] ∧
+    Tw.Gen.Packet6.bytelits_write_connless_packet = [255] ∧
+    Tw.Gen.Packet6.lits_control_write = [0, 0, 0] ∧ Tw.Gen.Packet7.lits_control_write = [0, 0, 0, 1, 0] ∧
+    Tw.Gen.Packet6.lits_write_chunk_impl = [0, 0, 0, 0] ∧ Tw.Gen.Packet7.lits_write_chunk_impl = [0, 0, 0, 0] ∧
+    Tw.Gen.Packet6.CTRLMSG_TOKEN_MAGIC = [84, 75, 69, 78] ∧ Tw.Gen.Packet7.TOKEN_NONE = [255, 255, 255, 255] ∧
+    (Tw.Gen.Packet6.PACKETFLAG_CONTROL, Tw.Gen.Packet6.PACKETFLAG_CONNLESS, Tw.Gen.Packet6.PACKETFLAG_REQUEST_RESEND,
+      Tw.Gen.Packet6.PACKETFLAG_COMPRESSION) = (1, 2, 4, 8) ∧
+    (Tw.Gen.Packet7.PACKETFLAG_CONTROL, Tw.Gen.Packet7.PACKETFLAG_REQUEST_RESEND, Tw.Gen.Packet7.PACKETFLAG_COMPRESSION,
+      Tw.Gen.Packet7.PACKETFLAG_CONNLESS) = (1, 2, 4, 8) ∧
+    (Tw.Gen.Packet6.CHUNKFLAG_VITAL, Tw.Gen.Packet6.CHUNKFLAG_RESEND, Tw.Gen.Packet7.CHUNKFLAG_VITAL,
+      Tw.Gen.Packet7.CHUNKFLAG_RESEND) = (1, 2, 1, 2) ∧
+    (Tw.Gen.Packet6.MAX_PAYLOAD, Tw.Gen.Packet7.MAX_PAYLOAD, Tw.Gen.Packet6.CTRLMSG_CLOSE_REASON_LENGTH,
+      Tw.Gen.Packet7.CTRLMSG_CLOSE_REASON_LENGTH, Tw.Gen.Packet7.CONNLESS_VERSION) = (1390, 1390, 127, 127, 1) := by
+  decide
+
+/-! ## chunk list ↔ chunk iterator -/
+
+/-- **0.6**: a list of chunks (each shorter than 1024 bytes, sequence numbers below 1024) serialised
+with `write_chunk` into one buffer and iterated with `ChunksIter::new(bytes, list.len())` comes back
+as exactly the same list — data, vital flag, sequence number, resend flag — with no warning at all
+(including the final `None` call), and the iteration ends within its fuel. -/
+theorem v6_chunk_list_iterator_roundtrip (cs : List (List UInt8 × Option (Nat × Bool)))
+    (hok : ∀ x ∈ cs, Tw.Packet6.ChunkOk x.1 x.2) (cap : Nat) (bs : List UInt8)
+    (hw : Tw.Packet6.writeChunkList cs cap [] = .ok bs) :
+    (((Iter.new bs cs.length).drain Tw.Packet6.codec).1.map fun ch => (ch.data, ch.vital)) = cs ∧
+    ((Iter.new bs cs.length).drain Tw.Packet6.codec).2.1 = [] ∧
+    ((Iter.new bs cs.length).drain Tw.Packet6.codec).2.2.2 = false :=
+  Tw.Packet6.chunkList_roundtrip cs hok cap bs hw
+
+/-- **0.7** (chunks shorter than 4096 bytes); true only with the D1 repair: before it every chunk whose
+size has bit 4 or 5 set produced `ChunkHeaderPadding` here. -/
+theorem v7_chunk_list_iterator_roundtrip (cs : List (List UInt8 × Option (Nat × Bool)))
+    (hok : ∀ x ∈ cs, Tw.Packet7.ChunkOk x.1 x.2) (cap : Nat) (bs : List UInt8)
+    (hw : Tw.Packet7.writeChunkList cs cap [] = .ok bs) :
+    (((Iter.new bs cs.length).drain Tw.Packet7.codec).1.map fun ch => (ch.data, ch.vital)) = cs ∧
+    ((Iter.new bs cs.length).drain Tw.Packet7.codec).2.1 = [] ∧
+    ((Iter.new bs cs.length).drain Tw.Packet7.codec).2.2.2 = false :=
+  Tw.Packet7.chunkList_roundtrip cs hok cap bs hw
+
+/-- a chunk list that fits is written (`write_chunk` fails only for lack of capacity) -/
+theorem v6_chunk_written_iff_fits (d : List UInt8) (v : Option (Nat × Bool)) (cap : Nat) (acc : List UInt8)
+    (hok : Tw.Packet6.ChunkOk d v) :
+    Tw.Packet6.writeChunk d v cap acc =
+      if acc.length + (Tw.Packet6.chunkHdr d v).length + d.length ≤ cap
+      then .ok (acc ++ Tw.Packet6.chunkHdr d v ++ d) else .capacity :=
+  Tw.Packet6.writeChunk_char d v cap acc hok
+
+-- non-vacuity: the D1 witness (a 16-byte non-vital chunk) and a vital resent chunk, in the model
+example : Tw.Packet7.writeChunkList [(List.replicate 16 0, none), ([7], some (1023, true))] 100 [] =
+    .ok ([0x00, 0x10] ++ List.replicate 16 0 ++ [0xc0, 0xc1, 0xff, 7]) := by decide
+example : Tw.Packet7.ChunkOk (List.replicate 16 0) none := ⟨by decide, by intro q r h; cases h⟩
 
 end Tw.Props.C05
